@@ -709,6 +709,11 @@ func bounds1(t *Term) (lo, hi *big.Int) {
 	return t.Lo, t.Hi
 }
 
+// TermFacts: closed facts attached to a term; asserted in every query in which the term occurs.
+var TermFacts = map[int][]*Term{}
+
+func AddFact(t *Term, fact *Term) { TermFacts[t.id] = append(TermFacts[t.id], fact) }
+
 // GroundAxiomHook lets the client add closed facts about an application term that occurs in a query.
 // The facts may only mention symbols that already occur in the query or are registered UFs with ground args.
 var GroundAxiomHook func(t *Term) []*Term
@@ -1264,6 +1269,12 @@ func (s *Script) Render() string {
 	}
 	// ground axioms contributed per application term (e.g. interior references are non-nil and injective)
 	axioms := append([]*Term{}, s.Axioms...)
+	for _, t := range append([]*Term{}, order...) {
+		for _, f := range TermFacts[t.id] {
+			axioms = append(axioms, f)
+			walk(f)
+		}
+	}
 	if GroundAxiomHook != nil {
 		memo0 := map[int]bool{}
 		for _, t := range append([]*Term{}, order...) {
